@@ -1283,6 +1283,11 @@ func c08Label(in *c08In, full, ref []c08Obs) string {
 			case !c08EqInts(o.Fired, prev.Fired):
 				return "frame:fired:" + mode + ":" + hstage
 			case !c08EqInts(o.Probe, prev.Probe):
+				if strings.HasPrefix(stage, "listen") {
+					// the workers were started by the startup callbacks and a listener then failed to
+					// bind: nothing runs the shutdown callbacks of the discarded instance (F-C08-5f..h)
+					return "frame:probers:" + mode + ":after-startup"
+				}
 				return "frame:probers:" + mode
 			}
 		}
